@@ -166,3 +166,55 @@ def mutual_recursion_cnf_specs(draw, terms=("a", "b")):
     used = {S} | {x for _, rhs in R for x in rhs} | {A for A, _ in R}
     V = [v for v in V if v in used]
     return {"V": V, "T": T, "R": R, "S": S}
+
+
+@st.composite
+def pseudo_cnf_specs(draw, terms=("a", "b"), max_vars=3):
+    """Every rule has Chomsky *shape* (A -> BC | a | eps) but the grammar is not in Chomsky normal form:
+    eps-rules for non-start variables, or the start variable on a right-hand side / recursive and nullable."""
+    n = draw(st.integers(1, max_vars))
+    V = draw(st.lists(st.sampled_from(UPPER), min_size=n, max_size=n, unique=True))
+    T = list(terms)
+    R = []
+    for A in V:
+        for _ in range(draw(st.integers(1, 2))):
+            R.append([A, [V[draw(st.integers(0, n - 1))], V[draw(st.integers(0, n - 1))]]])
+        if draw(st.integers(0, 3)) > 0:
+            R.append([A, [T[draw(st.integers(0, len(T) - 1))]]])
+        if draw(st.integers(0, 2)) == 0:
+            R.append([A, []])
+    if not any(not rhs for _, rhs in R):
+        R.append([V[-1], []])
+    seen, out = set(), []
+    for A, rhs in R:
+        if (A, tuple(rhs)) not in seen:
+            seen.add((A, tuple(rhs)))
+            out.append([A, rhs])
+    out = [r for r in out if r[0] == V[0]] + [r for r in out if r[0] != V[0]]
+    return {"V": V, "T": T, "R": out, "S": V[0]}
+
+
+AMBIG_VARS = ["A", "B", "C", "AB", "BC", "ABC", "S0", "S"]
+
+
+@st.composite
+def multichar_cnf_specs(draw, terms=("a", "b")):
+    """CNF grammars whose variable names concatenate ambiguously (A + BC == AB + C)."""
+    n = draw(st.integers(3, 6))
+    V = draw(st.lists(st.sampled_from(AMBIG_VARS), min_size=n, max_size=n, unique=True))
+    T = list(terms)
+    S, others = V[0], V[1:]
+    R = []
+    for A in V:
+        for _ in range(draw(st.integers(0, 2))):
+            R.append([A, [others[draw(st.integers(0, len(others) - 1))], others[draw(st.integers(0, len(others) - 1))]]])
+        if draw(st.integers(0, 3)) > 0:
+            R.append([A, [T[draw(st.integers(0, len(T) - 1))]]])
+    seen, out = set(), []
+    for A, rhs in R:
+        if (A, tuple(rhs)) not in seen:
+            seen.add((A, tuple(rhs)))
+            out.append([A, rhs])
+    if not out:
+        out = [[S, [T[0]]]]
+    return {"V": V, "T": T, "R": out, "S": S}
